@@ -500,6 +500,20 @@ def contraction_cases(w, cname):
     add("only scalar factors", ["c0", "c1"], [(), ()], ())
     add("double diagonal A_iaia -> ia", ["A_ovov"], [(i, a, i, a)], (i, a))
     add("transposition A_ij -> ji", ["A_oo"], [(i, j)], (j, i))
+    # numbered index names (what get_generic_indices / wicks hand out): einsum subscripts have to be single letters,
+    # one letter per index of the contraction (F54); libtensor labels are the names
+    i3, j3, k4, l4, k12, i1, i2 = w(["i3", "j3", "k4", "l4", "k12", "i1", "i2"])
+    a3, b3, c3, d3, a12 = w(["a3", "b3", "c3", "d3", "a12"])
+    add("numbered names, reorder x_a3i3 -> i3a3", ["x_vo"], [(a3, i3)], (i3, a3))
+    add("numbered names, identity x_i3a3", ["x_ov"], [(i3, a3)], (i3, a3))
+    add("numbered names, pair A_i3j B_jk12", ["A_oo", "B_oo"], [(i3, j), (j, k12)], (i3, k12))
+    add("numbered names, inner product", ["A_oovv", "B_oovv"], [(k4, l4, c3, d3), (k4, l4, c3, d3)], ())
+    add("numbered names next to their letters i, i1, i2", ["A_oo", "B_oo"], [(i, i1), (i1, i2)], (i, i2))
+    add("numbered names i1 i2 i3 j3 of one letter", ["A_oo", "B_oo", "C_oo"], [(i1, i2), (i2, i3), (i3, j3)], (j3, i1))
+    add("numbered names, eri and fock", [f"{FOCK}_ov", f"{ERI}_ovov"], [(j3, b3), (i3, a3, j3, b3)], (i3, a3))
+    add("numbered names, elementwise and outer", ["A_ov", "B_ov"], [(i3, a3), (i3, a12)], (i3, a12, a3))
+    inner_n = contraction(cname, 6, ["A_oo", "B_ov"], [(i3, k4), (k4, a3)], (i3, l4))
+    add("numbered names, nested inner contraction", [cname(6), "C_ov"], [inner_n.attrs["target"], (i1, a3)], (i3, i1), {cname(6): inner_n})
     # nested: the first operand is the result of an earlier contraction
     inner = contraction(cname, 7, ["A_oo", "B_ov"], [(i, j), (j, a)], (i, l))
     add("nested inner contraction", [cname(7), "C_ov"], [inner.attrs["target"], (l, a)], (i, l), {cname(7): inner})
